@@ -916,11 +916,26 @@ func (w *Writer) writeMath(m ir.ExprMath) (string, error) {
 		// findLSB always returns signed; cast to unsigned if arg is unsigned
 		return w.wrapUintCast(fmt.Sprintf("findLSB(%s)", argStr), m.Arg), nil
 	case ir.MathCountLeadingZeros:
-		// GLSL doesn't have direct clz, use workaround
-		return fmt.Sprintf("(31 - findMSB(%s))", args[0]), nil
+		// GLSL doesn't have direct clz: 31 - findMSB(x), with findMSB(0) == -1.
+		// A signed argument is read as unsigned so that a negative value has no leading zeros.
+		if _, isUint := w.isUnsignedExpr(m.Arg); isUint {
+			return w.wrapUintCast(fmt.Sprintf("(31 - findMSB(%s))", args[0]), m.Arg), nil
+		}
+		if vecSize, isVec := w.getExprVectorSize(m.Arg); isVec {
+			return fmt.Sprintf("(31 - findMSB(uvec%d(%s)))", vecSize, args[0]), nil
+		}
+		return fmt.Sprintf("(31 - findMSB(uint(%s)))", args[0]), nil
 	case ir.MathCountTrailingZeros:
-		// GLSL doesn't have direct ctz, use findLSB
-		return fmt.Sprintf("findLSB(%s)", argStr), nil
+		// GLSL doesn't have direct ctz: min(findLSB(x), 32), with findLSB(0) == -1 read as unsigned.
+		uintType, intType := "uint", "int"
+		if vecSize, isVec := w.getExprVectorSize(m.Arg); isVec {
+			uintType, intType = fmt.Sprintf("uvec%d", vecSize), fmt.Sprintf("ivec%d", vecSize)
+		}
+		ctz := fmt.Sprintf("min(%s(findLSB(%s)), 32u)", uintType, args[0])
+		if _, isUint := w.isUnsignedExpr(m.Arg); isUint {
+			return ctz, nil
+		}
+		return fmt.Sprintf("%s(%s)", intType, ctz), nil
 	case ir.MathExtractBits:
 		// Rust naga: clamp offset and count for safety
 		// bitfieldExtract(val, int(min(offset, 32u)), int(min(count, 32u - min(offset, 32u))))
